@@ -136,47 +136,9 @@ def check_find(rep, F, cfg):
     step_table(plain_b, kid, False, "plain")
 
 
-def check_nested(rep, F):
-    se = F.fn("solver::solve_expression")
-    arm = None
-    top = se.body.get("expr") if se else None
-    if top and top.get("k") == "Match":
-        for a in top["arms"]:
-            if variant_of(a["pat"]) == ("Expression", "Nested"):
-                arm = a
-    if arm is None:
-        rep.lost("T-NESTED", "T-NESTED/anchor", "Nested arm of solve_expression")
-        return
-    s_id = strip_ref(subpat(arm["pat"], 0)).get("id")
-    e_id = strip_ref(subpat(arm["pat"], 1)).get("id")
-    b = arm["body"]
-    first = b["stmts"][0] if b.get("stmts") else None
-    finds0 = [x for x in walk(first.get("init") or {}) if call_is(x, "Document::find")] if first and first["k"] == "Let" else []
-    okf = len(finds0) == 1
-    if okf:
-        fb = q.failure_branch(b, finds0[0])
-        okf = show(finds0[0]) == "Document::find(document, Deref::deref(s))" and isinstance(fb, dict) and q.returns_sr(fb, "Missing")
-    rep.check(okf, "T-NESTED", "T-NESTED/absent", arm["sp"], "value = document.find(field); absent => Missing", show(first["init"])[:100] if first else "-")
-    vm = unblock(b.get("expr")) if b.get("expr") else None
-    if not vm or vm.get("k") != "Match":
-        rep.lost("T-NESTED", "T-NESTED/kinds", "match on the value kind")
-        return
-    pats = [pat_str(a["pat"]) for a in vm["arms"]]
-    rep.check(pats == ["Value::Object($o)", "Value::Array($a)", "_"], "T-NESTED", "T-NESTED/arms", vm["sp"], "Object / Array / other", str(pats))
-    if pats != ["Value::Object($o)", "Value::Array($a)", "_"]:
-        return
-    ao, aa, ax = vm["arms"]
-    so = show(ao["body"])
-    rep.check(so == "solver::solve_expression(e, identifiers, o)", "T-NESTED", "T-NESTED/object", ao["sp"], "an object is searched with the nested block on that object", so)
-    rep.check(q.is_sr(unblock(ax["body"]), "False") or show(ax["body"]).endswith("SolverResult::False"), "T-NESTED", "T-NESTED/scalar", ax["sp"], "a scalar under a nested block => False", show(ax["body"])[:60])
-    # generic array loop: last For + trailing False
-    ab = aa["body"]
-    tail = ab.get("expr")
-    loops = [s["e"] for s in ab.get("stmts", []) if s["k"] == "Expr" and s["e"].get("k") == "For"]
-    okg = bool(loops) and q.is_sr(tail, "False") and q.loop_over(loops[-1])[0] == strip_ref(subpat(aa["pat"], 0)).get("id")
-    rep.check(okg, "T-NESTED", "T-NESTED/array-exists", aa["sp"], "array: the generic case is a loop over the array's own elements ending in False (its truth table is NESTED-MODEL/plain)", show(loops[-1])[:160] if loops else "-")
-
-    # NESTED-MODEL: evaluate the array arm as a model.  members k in 1..3, elements m in 0..2, oracle table (member, element) -> {T,F,M}
+def make_nested_runner(aa, e_id):
+    """run(e_shape, k, m, table, nonobj=()) -> 'T'|'F'|'M': the Array arm `aa` of the solver's Nested arm evaluated as a model with the
+    nested expression bound to `e_shape`, m array elements and the oracle table (member, element) -> {T,F,M}."""
     arr_id = strip_ref(subpat(aa["pat"], 0)).get("id")
 
     def run_model(e_shape, k, m, table, cols=None, nonobj=()):
@@ -220,6 +182,70 @@ def check_nested(rep, F):
             v = r.v
         return v[1]
 
+
+    return run_model
+
+
+def nested_array_arm(F):
+    """(Array arm of the value-kind match inside the solver's Nested arm, id of the nested expression variable) or None"""
+    se = F.fn("solver::solve_expression")
+    top = se.body.get("expr") if se else None
+    if not (top and top.get("k") == "Match"):
+        return None
+    for a in top["arms"]:
+        if variant_of(a["pat"]) == ("Expression", "Nested"):
+            e_id = strip_ref(subpat(a["pat"], 1)).get("id")
+            vm = unblock(a["body"].get("expr")) if a["body"].get("expr") else None
+            if vm and vm.get("k") == "Match":
+                for x in vm["arms"]:
+                    if variant_of(x["pat"]) and variant_of(x["pat"])[1] == "Array":
+                        return x, e_id
+    return None
+
+
+def check_nested(rep, F):
+    se = F.fn("solver::solve_expression")
+    arm = None
+    top = se.body.get("expr") if se else None
+    if top and top.get("k") == "Match":
+        for a in top["arms"]:
+            if variant_of(a["pat"]) == ("Expression", "Nested"):
+                arm = a
+    if arm is None:
+        rep.lost("T-NESTED", "T-NESTED/anchor", "Nested arm of solve_expression")
+        return
+    s_id = strip_ref(subpat(arm["pat"], 0)).get("id")
+    e_id = strip_ref(subpat(arm["pat"], 1)).get("id")
+    b = arm["body"]
+    first = b["stmts"][0] if b.get("stmts") else None
+    finds0 = [x for x in walk(first.get("init") or {}) if call_is(x, "Document::find")] if first and first["k"] == "Let" else []
+    okf = len(finds0) == 1
+    if okf:
+        fb = q.failure_branch(b, finds0[0])
+        okf = show(finds0[0]) == "Document::find(document, Deref::deref(s))" and isinstance(fb, dict) and q.returns_sr(fb, "Missing")
+    rep.check(okf, "T-NESTED", "T-NESTED/absent", arm["sp"], "value = document.find(field); absent => Missing", show(first["init"])[:100] if first else "-")
+    vm = unblock(b.get("expr")) if b.get("expr") else None
+    if not vm or vm.get("k") != "Match":
+        rep.lost("T-NESTED", "T-NESTED/kinds", "match on the value kind")
+        return
+    pats = [pat_str(a["pat"]) for a in vm["arms"]]
+    rep.check(pats == ["Value::Object($o)", "Value::Array($a)", "_"], "T-NESTED", "T-NESTED/arms", vm["sp"], "Object / Array / other", str(pats))
+    if pats != ["Value::Object($o)", "Value::Array($a)", "_"]:
+        return
+    ao, aa, ax = vm["arms"]
+    so = show(ao["body"])
+    rep.check(so == "solver::solve_expression(e, identifiers, o)", "T-NESTED", "T-NESTED/object", ao["sp"], "an object is searched with the nested block on that object", so)
+    rep.check(q.is_sr(unblock(ax["body"]), "False") or show(ax["body"]).endswith("SolverResult::False"), "T-NESTED", "T-NESTED/scalar", ax["sp"], "a scalar under a nested block => False", show(ax["body"])[:60])
+    # generic array loop: last For + trailing False
+    ab = aa["body"]
+    tail = ab.get("expr")
+    loops = [s["e"] for s in ab.get("stmts", []) if s["k"] == "Expr" and s["e"].get("k") == "For"]
+    okg = bool(loops) and q.is_sr(tail, "False") and q.loop_over(loops[-1])[0] == strip_ref(subpat(aa["pat"], 0)).get("id")
+    rep.check(okg, "T-NESTED", "T-NESTED/array-exists", aa["sp"], "array: the generic case is a loop over the array's own elements ending in False (its truth table is NESTED-MODEL/plain)", show(loops[-1])[:160] if loops else "-")
+
+    # NESTED-MODEL: evaluate the array arm as a model.  members k in 1..3, elements m in 0..2, oracle table (member, element) -> {T,F,M}
+    run_model = make_nested_runner(aa, e_id)
+
     E = lambda variant, *fields: ("ctor", "Expression", variant, list(fields))
     nrows = 0
     for form in ("plain", "all-group", "all-matrix"):
@@ -245,8 +271,8 @@ def check_nested(rep, F):
                         nrows += 1
                         if (got == "T") != exp_true:
                             bad.append("k=%d m=%d %s -> %s" % (k, m, "".join(vals), got))
-                        if form == "plain" and not exp_true and got != "F":
-                            bad.append("k=%d m=%d %s -> %s (plain form must be False)" % (k, m, "".join(vals), got))
+                        if not exp_true and got != "F":
+                            bad.append("k=%d m=%d %s -> %s (over a list the answer is true or false, never missing)" % (k, m, "".join(vals), got))
                         if form == "plain":
                             # elements that are not objects are skipped, whatever the block would say about them
                             for r in range(1, m + 1):
